@@ -100,7 +100,7 @@ struct Interp {
         if (after_end_removal) { ctx.label("op-after-end-removal"); interesting = true; after_end_removal = false; }
         if (n == "insert") {
             std::string w = kWords[(size_t)(((op.i(0) % 8) + 8) % 8)];
-            for (int c = 0; c < 3; c++) VT_CHECK(ctx, LA(c04_insert(c, w.c_str())) == 1, "mismatch", "return:" << kCls[c] << "; insert returned FALSE");
+            for (int c = 0; c < 3; c++) { int r = LA(c04_insert(c, w.c_str())); VT_CHECK(ctx, r != -7, "mismatch", "argument-evaluated-twice:" << kCls[c] << "; SPIF_VECTOR_INSERT evaluated its item expression more than once"); VT_CHECK(ctx, r == 1, "mismatch", "return:" << kCls[c] << "; insert returned FALSE"); }
             if (cur.count(w)) ctx.label("insert:duplicate");
             if (cur.empty() || w < *cur.begin()) ctx.label("insert:new-min");
             if (cur.empty() || w >= *cur.rbegin()) ctx.label("insert:new-max");
